@@ -173,7 +173,7 @@ def gen_case(rng, tier):
     installed = rng.sample(['it_IT.UTF-8', 'en_US.UTF-8', 'de_DE.UTF-8'], rng.choice([0, 0, 1, 2]))
     files = {}
     for u in rng.sample(URIS, rng.randint(2, 6)):
-        files[u] = {'text': rng.choice(FILE_TEXTS), 'fault': rng.choice([None, None] + FAULT_KINDS),
+        files[u] = {'text': rng.choice(FILE_TEXTS), 'fault': rng.choice([None] * 12 + FAULT_KINDS),
                     'enc': rng.choice(['utf-8', 'utf-8', 'utf-16', 'latin-1', 'latin-1', 'cp1252', 'utf-16-le'])}
     nops = rng.randint(2, 30 if thorough else 12)
     reclimit = rng.choice([None, None, None, 200, 400])
